@@ -163,6 +163,22 @@ class Ctx:
         return TLCRun(d, logf, rc, time.time() - t0)
 
 
+def apalache(ctx, module_text, module, args, name, timeout=1800):
+    """Runs apalache-mc check on a module given as text, in a scratch directory. Returns (ok, tail)."""
+    d = ctx.sub(name)
+    open(os.path.join(d, module + ".tla"), "w").write(module_text)
+    t0 = time.time()
+    try:
+        p = subprocess.run(["apalache-mc", "check", f"--out-dir={d}/out"] + args + [module + ".tla"], cwd=d, capture_output=True, text=True, timeout=timeout)
+    except subprocess.TimeoutExpired:
+        raise Infra(f"apalache timeout ({timeout}s) on {module}")
+    out = p.stdout + p.stderr
+    ok = p.returncode == 0 and "The outcome is: NoError" in out
+    if not ok and "The outcome is: Error" not in out:
+        raise Infra("apalache failed: " + out[-1500:])
+    return ok, round(time.time() - t0, 1), out[-1500:]
+
+
 class TLCRun:
     def __init__(self, d, logf, rc, secs):
         self.dir, self.log, self.rc, self.secs = d, logf, rc, secs
